@@ -1,7 +1,7 @@
 """C04 — join / tryjoin / detach: result delivered once, fiber reclaimed once, never early (structural part)."""
 from core import strip, is_field, key_mentions, order_ge, key_str
 from facts import AnalysisBroken
-from rules import (check_init, nodeset, ev, Unevaluable, forced_edges, atom_from, reach, atomic_ops, ret_const, callpred)
+from rules import (writer_kind, check_init, nodeset, ev, Unevaluable, forced_edges, atom_from, reach, atomic_ops, ret_const, callpred)
 import stale
 from props import c01
 
@@ -81,7 +81,7 @@ def run(ctx):
     for fn in P.unique_functions():
         for s in fn.stores_to(F, "detach_state"):
             n += 1
-            kind = s.aop if s.kind in ("atomic", "sync") else "assign"
+            kind = writer_kind(s)
             ok = (kind == "assign" and fn.name in ("fiber_create_no_sched", "fiber_create_from_thread") and strip(s.value).cv == NONE) or \
                  (kind == "exchange" and fn.name in ("fiber_mark_completed", "fiber_join", "fiber_tryjoin", "fiber_detach"))
             if not ok:
